@@ -201,6 +201,14 @@ COMMANDS = [
     ('pbgen', ['pitfall', 4, 2, 2, 2, 2]),
     ('cnfshuffle', ['-i', _os.path.join(DATA, 'f6.cnf')]),
     ('cnfshuffle', ['-i', _os.path.join(DATA, 'f10.cnf'), '-p']),
+    # deterministic constructions (lattices, shifts, complete graphs) followed by a random modifier: the second run must
+    # start from the same graph as the first
+    ('cnfgen', ['kcolor', 2, 'grid', 2, 3, 'addedges', 2]),
+    ('cnfgen', ['tseitin', 'first', 'torus', 3, 3, 'splitedges', 2]),
+    ('cnfgen', ['kclique', 3, 'grid', 3, 3, 'plantclique', 3, 'addedges', 1]),
+    ('cnfgen', ['php', 'shift', 3, 4, 0, 1, 'addedges', 2]),
+    ('pbgen', ['subsetcard', 'shift', 4, 4, 0, 1, 'addedges', 1]),
+    ('cnfgen', ['op', 'complete', 4, 'splitedges', 1]),
 ]
 
 
@@ -874,3 +882,57 @@ def h_e_cmd_46(si: int) -> bool:
     """
     # cnfshuffle -i <data>/f10.cnf -p
     return _cmd(46, si)
+
+
+def h_e_cmd_47(si: int) -> bool:
+    """
+    pre: 0 <= si <= 3
+    post: _
+    """
+    # cnfgen kcolor 2 grid 2 3 addedges 2
+    return _cmd(47, si)
+
+
+def h_e_cmd_48(si: int) -> bool:
+    """
+    pre: 0 <= si <= 3
+    post: _
+    """
+    # cnfgen tseitin first torus 3 3 splitedges 2
+    return _cmd(48, si)
+
+
+def h_e_cmd_49(si: int) -> bool:
+    """
+    pre: 0 <= si <= 3
+    post: _
+    """
+    # cnfgen kclique 3 grid 3 3 plantclique 3 addedges 1
+    return _cmd(49, si)
+
+
+def h_e_cmd_50(si: int) -> bool:
+    """
+    pre: 0 <= si <= 3
+    post: _
+    """
+    # cnfgen php shift 3 4 0 1 addedges 2
+    return _cmd(50, si)
+
+
+def h_e_cmd_51(si: int) -> bool:
+    """
+    pre: 0 <= si <= 3
+    post: _
+    """
+    # pbgen subsetcard shift 4 4 0 1 addedges 1
+    return _cmd(51, si)
+
+
+def h_e_cmd_52(si: int) -> bool:
+    """
+    pre: 0 <= si <= 3
+    post: _
+    """
+    # cnfgen op complete 4 splitedges 1
+    return _cmd(52, si)
